@@ -116,6 +116,107 @@ def rule_sigma_table(chk):
                    detail_ok=want)
 
 
+def rule_snapshot(chk):
+    """The pair forces cancel only if both particles of a pair see the same state.  A Group is evaluated destination by destination; if a group holds a pair-symmetric momentum
+    equation B (dest in a role list R, sources including R) together with an equation A that writes, for the arrays of the same list R, a property B reads from its source side
+    (s_X), then with two arrays in R the first one's pair loop reads the other's X from the previous evaluation while the other reads fresh values: the cross-array contributions
+    no longer cancel.  Decided over every configuration of every shipped scheme (get_equations interpreted by E8)."""
+    import importlib.util
+    spec = importlib.util.spec_from_file_location('c12mod', os.path.join(os.path.dirname(os.path.abspath(__file__)), 'c12.py'))
+    c12 = importlib.util.module_from_spec(spec)
+    spec.loader.exec_module(c12)
+    from verif_static import absint as A, eqindex as EI
+    ci = EI.index()
+    pair_names = set((('pysph/sph/' + f), n) for (f, n) in PAIR_SYMMETRIC)
+    PAIRH = ('loop', 'loop_all', 'initialize_pair')
+
+    def writes(cref):
+        out = set()
+        for hook, (rel, c2, fn) in EI.resolved_hooks(ci, cref.rel, cref.node, EI.HOOKS).items():
+            for a in ast.walk(fn):
+                tg = a.targets if isinstance(a, ast.Assign) else [a.target] if isinstance(a, ast.AugAssign) else []
+                for t in tg:
+                    if isinstance(t, ast.Subscript) and isinstance(t.value, ast.Name) and t.value.id.startswith('d_'):
+                        out.add(t.value.id[2:])
+        return out
+
+    def sreads(cref):
+        out = set()
+        for hook, (rel, c2, fn) in EI.resolved_hooks(ci, cref.rel, cref.node, PAIRH).items():
+            for a in fn.args.args:
+                if a.arg.startswith('s_'):
+                    out.add(a.arg[2:])
+        return out
+
+    def leaf_groups(it, v, out):
+        if isinstance(v, (list, tuple)):
+            eqs = [x for x in v if isinstance(x, A.Inst) and 'Equation' in [c.name for r, c in it.mro(x.cls)]]
+            if eqs:
+                out.append(eqs)
+            for x in v:
+                if not any(x is e for e in eqs):
+                    leaf_groups(it, x, out)
+        elif isinstance(v, A.Inst):
+            for x in list(v.args) + list(v.kwargs.values()):
+                leaf_groups(it, x, out)
+    nsch = ncfg = npair = 0
+    hits = {}
+    wcache, rcache = {}, {}
+    for rel, cls, own in c12.scheme_classes(ci):
+        nsch += 1
+
+        def run(cfg, rel=rel, cls=cls):
+            it = A.Interp(ci, cfg)
+            cref = A.ClassRef(rel, cls)
+            obj = c12.instantiate(it, cref)
+            f = it.find_method(cref, 'get_equations')
+            return it, it.call_function(A.FuncRef(f[0], f[2], self_obj=obj, cls=f[1]), [], {}, f[2])
+        try:
+            for cfg, res in A.explore(run, cap=3000):
+                if isinstance(res, A.Raised):
+                    continue
+                ncfg += 1
+                it, eqs = res
+                groups = []
+                leaf_groups(it, eqs, groups)
+                for g in groups:
+                    for b in g:
+                        if (b.cls.rel, b.cls.node.name) not in pair_names:
+                            continue
+                        db = b.kwargs.get('dest', b.args[0] if b.args else None)
+                        sb = b.kwargs.get('sources', b.args[1] if len(b.args) > 1 else None)
+                        if not isinstance(db, str) or not isinstance(sb, (list, tuple)) or db not in sb:
+                            continue
+                        npair += 1
+                        kb = (b.cls.rel, b.cls.node.name)
+                        if kb not in rcache:
+                            rcache[kb] = sreads(b.cls)
+                        for a in g:
+                            if a is b:
+                                continue
+                            da = a.kwargs.get('dest', a.args[0] if a.args else None)
+                            if da != db:
+                                continue
+                            ka = (a.cls.rel, a.cls.node.name)
+                            if ka not in wcache:
+                                wcache[ka] = writes(a.cls)
+                            common = wcache[ka] & rcache[kb]
+                            if common:
+                                hits.setdefault((cls.name, ka[1], kb[1], db, tuple(sorted(common))), (c12.describe(cfg), a.node, a.rel))
+        except A.Unsupported as e:
+            chk.undecided('pair-state-is-one-snapshot', cls.name, file=rel, func=cls.name + '.get_equations', line=cls.lineno, detail='get_equations not interpretable: %s' % e)
+    for (sname, an, bn, role, props), (cfgtext, node, rel2) in sorted(hits.items()):
+        chk.violated('pair-state-is-one-snapshot', '%s:%s->%s:%s' % (sname, an, bn, ','.join(props)), node=node, file=rel2, func=sname + '.get_equations',
+                     detail='%s (dest %s) writes %s in the same group in which %s (dest %s, sources including %s) reads s_%s: with two arrays in that list one of them computes its '
+                            'pair forces from the other\'s %s of the previous evaluation and the other from fresh values, so the forces between the bodies do not cancel (%s)'
+                            % (an, role, list(props), bn, role, role, props[0], props[0], cfgtext))
+    if not hits:
+        chk.holds('pair-state-is-one-snapshot', 'all-schemes', file='pysph/sph/scheme.py', func='get_equations', line=0,
+                  detail='%d schemes, %d configurations, %d pair-symmetric equations with their own role among the sources: no equation of the same group writes what they read from the source side'
+                         % (nsch, ncfg, npair))
+    chk.floor('pair-symmetric equation uses in scheme groups', npair, 20)
+
+
 def main(chk):
     chk.explanation = ('For every momentum equation classified pair-symmetric in the anchored files, loop() is abstractly evaluated (if-conversion, '
                        'polynomial normal form with reciprocal / abs / max / indicator atoms) and the obligation swap(m_a * delta a_k) = -m_a * delta a_k is '
@@ -123,6 +224,16 @@ def main(chk):
                        'WI <-> WJ); central-force equations additionally satisfy delta a x DWIJ = 0.  The renaming of each precomputed symbol is itself '
                        'derived from its definition.  New accumulating classes must be classified (exit 2 otherwise).')
     rule_sigma_table(chk)
+    rule_snapshot(chk)
+    # summation density is positive wherever a particle sees itself: every kernel is non-negative inside its support and exactly zero outside
+    # (pairs are accepted up to radius_scale*max(h_a, h_b) but W is evaluated with the mean h, so q beyond the cut-off does occur) - rules shared with C08
+    import importlib.util
+    spec8 = importlib.util.spec_from_file_location('c08mod', os.path.join(os.path.dirname(os.path.abspath(__file__)), 'c08.py'))
+    c08 = importlib.util.module_from_spec(spec8)
+    spec8.loader.exec_module(c08)
+    pyk = dict((c.name, c) for c in c08.kernel_classes(M.py(c08.KER)))
+    c08.rule_cutoff(chk, pyk)
+    c08.rule_monotone(chk, pyk)
     ker = M.py('pysph/base/kernels.py')
     nk = 0
     for kc in M.classes(ker):
